@@ -41,6 +41,14 @@ FormulaLen(W) == SumSeq([i \in 1..Len(W) |-> FormulaCount(W, i)])
 \* then smooth weighted round robin over the others: `total` rounds, each round picks the largest
 \* current weight (ties: the greater String(), i.e. the greater ord), emits it, lowers it by total;
 \* every entry then grows by its eff.  Result: sequence of 1-based indexes into W.
+\* one round of the smooth weighted round robin per recursion; eff/total/ord are passed as values
+RECURSIVE SwrrRounds(_, _, _, _, _, _)
+SwrrRounds(k, cur, acc, eff, total, ord) ==
+  IF k = 0 THEN acc
+  ELSE LET P == DOMAIN cur
+           p == CHOOSE i \in P : \A j \in P : cur[j] < cur[i] \/ (cur[j] = cur[i] /\ ord[j] <= ord[i])
+       IN SwrrRounds(k - 1, [i \in P |-> IF i = p THEN cur[i] - total + eff[i] ELSE cur[i] + eff[i]],
+                     Append(acc, p), eff, total, ord)
 StaticWeightList(W, ord) ==
   LET n == Len(W)
       R == ScaleR(W)
@@ -48,14 +56,8 @@ StaticWeightList(W, ord) ==
       eff == [i \in 1..n |-> (W[i] * R) \div mx]
       Z == SelectSeq([i \in 1..n |-> i], LAMBDA i : eff[i] = 0)
       P == {i \in 1..n : eff[i] > 0}
-      total == SumSeq([i \in 1..n |-> eff[i]])
-      Pick(cur) == CHOOSE i \in P : \A j \in P : cur[j] < cur[i] \/ (cur[j] = cur[i] /\ ord[j] <= ord[i])
-      RECURSIVE Rounds(_, _, _)
-      Rounds(k, cur, acc) ==
-        IF k = 0 THEN acc
-        ELSE LET p == Pick(cur)
-             IN Rounds(k - 1, [i \in P |-> IF i = p THEN cur[i] - total + eff[i] ELSE cur[i] + eff[i]], Append(acc, p))
-  IN Rounds(total, [i \in P |-> eff[i]], Z)
+      total == SumSeq(eff)
+  IN SwrrRounds(total, [i \in P |-> eff[i]], Z, eff, total, ord)
 
 \* ------------------------------------------------------------------ member list
 HostsOf(m) == {m[i].h : i \in 1..Len(m)}
